@@ -94,7 +94,8 @@ def gen_program(ch, depth, budget):
     """A task program: list of steps."""
     steps = []
     for _ in range(ch.int("n_steps", 1, 6)):
-        kinds = [(4, "probe"), (4, "query"), (1, "write"), (1, "read"), (1, "cell")]
+        kinds = [(4, "probe"), (4, "query"), (1, "write"), (2, "read"), (1, "cell"),
+                 (2, "colors"), (1, "namever")]
         if depth < 2 and budget[0] > 0:
             kinds.append((3, "start"))
         kind = ch.weighted("step", kinds)
@@ -202,6 +203,16 @@ def run(ch, ctx, fault=None):
                           {"task": label, "got": got}, "read")
                 elif kind == "cell":
                     utils.get_cell_size()
+                elif kind in ("colors", "namever"):
+                    # first (uncached) call of a memoized getter: query + DA1 tail drain.
+                    # Top-level only, so memo lock -> tty lock is the only order in play.
+                    fn = utils.get_fg_bg_colors if kind == "colors" else \
+                        utils.get_terminal_name_version
+                    fn._invalidate_cache()
+                    got = fn()
+                    want = ((255, 255, 255), (0, 0, 0)) if kind == "colors" else ("xterm", "370")
+                    check(got == want, "memoized_getter_did_not_receive_its_own_reply",
+                          {"task": label, "function": kind, "got": repr(got)}, "getter")
                 elif kind == "start":
                     progs = st[1]
                     started_children[0] += 1
